@@ -577,25 +577,38 @@ def rule_P5(ctx):
     bs = [a for a in own_nodes(mt) if isinstance(a, ast.Assign) and norm(a.targets[0]) == "buffer_sizes"]
     ok = len(bs) == 1 and norm(bs[0].value) == f"get_buffer_sizes({mt.args.args[0].arg})"
     ctx.ob("P5", mt, "block sizes are computed from the data streams", ok, "", inst="buffer-sizes-call")
+    # pass-through: decided per returning path on the returned term and the facts established on that path
+    from .util import atomic_facts as _af
+    D, DE = mt.args.args[0].arg, mt.args.args[1].arg
+    single_re = re.compile(r"-1 \+ len\(" + re.escape(D) + r"\) == 0")
+    same_re = re.compile(r"-1\*\(?sub\(" + re.escape(D) + r",0\)\)?\.encoding \+ " + re.escape(DE) + r" == 0|-1\*" + re.escape(DE) + r" \+ \(?sub\(" + re.escape(D) + r",0\)\)?\.encoding == 0")
+    okb, detb, okc_, detc_, n_pt, n_pl = True, "", True, "", 0, 0
+    for p in run_paths(ctx, mt, rule="P5", limit=4000):
+        if p.end != "return" or p.ret is None:
+            continue
+        facts = _af(p)
+        single = next((t for c, t in facts if single_re.fullmatch(c)), None)
+        same = next((t for c, t in facts if same_re.fullmatch(c)), None)
+        k = p.ret.key()
+        if k.startswith("PassthroughTranscoder("):
+            n_pt += 1
+            if k not in (f"PassthroughTranscoder(sub({D},0),sub(get_buffer_sizes({D}),0))",):
+                okb, detb = False, f"pass-through built as `{k[:120]}`: with a frame size that does not divide the default block the next block starts in mid-frame"
+            if not (single is True and same is True):
+                okc_, detc_ = False, "pass-through is chosen without having established one stream in the destination encoding"
+        elif k.startswith("PipelineTranscoder("):
+            n_pl += 1
+            if single is True and same is True:
+                okc_, detc_ = False, "a single stream already in the destination encoding is not passed through"
     pt = [c for c in own_nodes(mt) if isinstance(c, ast.Call) and norm(c.func) == "PassthroughTranscoder"]
-    ok = len(pt) == 1
-    det = ""
-    if ok:
-        kw = {k.arg: norm(k.value) for k in pt[0].keywords}
-        pos = [norm(a) for a in pt[0].args]
-        bsz = kw.get("buffer_size", pos[1] if len(pos) > 1 else None)
-        ok = bsz == "buffer_sizes[0]" and pos[0] == f"{mt.args.args[0].arg}[0]"
-        det = "" if ok else f"pass-through block size is `{bsz}`: with a frame size that does not divide the default block the next block starts in mid-frame"
-    ctx.ob("P5", pt[0] if pt else mt, "the pass-through transcoder reads whole-frame blocks (buffer_sizes[0]) from the single stream", ok, det, inst="passthrough-block")
+    ctx.ob("P5", pt[0] if pt else mt, "the pass-through transcoder reads whole-frame blocks (buffer_sizes[0]) from the single stream", okb and n_pt >= 1, detb, inst="passthrough-block")
     lam = [l for l in own_nodes(mt) if isinstance(l, ast.Lambda) and "decode_frame" in norm(l.body)]
     ok = len(lam) == 1 and norm(lam[0].body) in ("decode_frame(x, buffer_sizes=buffer_sizes)", "decode_frame(x, buffer_sizes)")
     ctx.ob("P5", mt, "the pipeline decoder reads with those block sizes", ok, "", inst="decode-lambda")
     pl = [c for c in own_nodes(mt) if isinstance(c, ast.Call) and norm(c.func) == "PipelineTranscoder"]
     ok = len(pl) == 1 and norm(pl[0].args[0]) == mt.args.args[0].arg
     ctx.ob("P5", mt, "the pipeline transcoder works on all data streams", ok, "", inst="pipeline-streams")
-    cond = [i for i in own_nodes(mt) if isinstance(i, ast.If) and "len(data_streams) == 1" in norm(i.test)]
-    ok = len(cond) == 1 and norm(cond[0].test) == "len(data_streams) == 1 and data_streams[0].encoding == dest_encoding"
-    ctx.ob("P5", mt, "pass-through is used only for a single stream already in the destination encoding", ok, "", inst="passthrough-cond")
+    ctx.ob("P5", mt, "pass-through is used only for a single stream already in the destination encoding", okc_ and n_pt >= 1 and n_pl >= 1, detc_, inst="passthrough-cond")
     # channel count check
     from .sem import sum_builder, canon_expr as _ce
     okc, detc = False, "no channel-count test raising IncompatibleNumberOfChannels"
